@@ -46,6 +46,33 @@ def gen_algo_case(rng, ctx, classes="D1 D2 D3 D3 D4 D5 D6 D7 D8 D9 D10 D10 D16 D
         return {"ds": ds, "scheme": [list(v) for v in ref.PRESETS[rng.choice(["unifying", "pseudodistance"])]],
                 "configs": ["ParCons", "BioConsert", "KwikSort", "Borda", "Copeland", "BioCo", "ParCons(KwikSort;80)"],
                 "one": True, "libseed": rng.randrange(10 ** 6), "dcls": "huge-component", "scls": "S1"}
+    if rng.random() < 0.05:
+        # a string-typed dataset (one word) whose non-trivial components are made of digit strings only: every
+        # sub-problem built on such a component is integer-like on its own, and whatever comes back from it (exact solver
+        # or auxiliary algorithm) must be mapped to the elements of the input dataset; configurations that project
+        n = rng.choice([4, 5, 6, 7])
+        digits = [str(v) for v in rng.sample(range(0, 40), n - 1)]
+        word = rng.choice(["w", "a", "x1"])
+        _, core = gen.dataset(rng, cls=rng.choice(["D9", "D11", "D11"]), names=digits, n=len(digits), mmax=5)
+        where = rng.choice(["first", "last", "absent-sometimes"])
+        ds = []
+        for r in core:
+            r = [list(b) for b in r]
+            if where == "first" or (where == "absent-sometimes" and rng.random() < 0.5):
+                r = [[word]] + r
+            elif where == "last":
+                r = r + [[word]]
+            ds.append(r)
+        if not any(word in b for r in ds for b in r):
+            ds.append([[word]])
+        chosen = ["ParCons(BioConsert;0)", "ParCons(KwikSort;2)", "ParCons(Copeland;2)", "ParCons(Borda;0)",
+                  "ParCons(BioCo;2)", "ParCons"]
+        if "D" in ctx.mode:
+            chosen = ["Cplex", "CplexOptim1", "Exact"] + rng.sample(chosen, 3)
+        else:
+            chosen = chosen + rng.sample(["Exact", "BioConsert[Pulp]", "Pulp"], 1)
+        return {"ds": libx.normalise_raw(ds), "scheme": gen.scheme(rng, "S1 S1 S3 S11")[1], "configs": chosen,
+                "one": rng.random() < 0.7, "libseed": rng.randrange(10 ** 6), "dcls": "digit-components", "scls": "S1"}
     cls, ds = gen.dataset(rng, classes=classes, nmax=nmax, mmax=6)
     ds = libx.normalise_raw(ds)
     scls, sch = gen.scheme(rng, schemes)
